@@ -1,8 +1,8 @@
 """C15 -- delayed task creation happens once, after its trigger   (model M1+, DESIGN §5 C15)
 
-(T) lean/DoitModel/Props/C15.lean: C15_once / C15_once_count (no creator is evaluated twice, all schedules, under the
-    decidable hypotheses resolvesB/coversB; once_needs_covers: false without coversB = open finding
-    creates-not-yielded), C15_after_trigger (every creator evaluation is preceded by the terminal report of the
+(T) lean/DoitModel/Props/C15.lean: C15_once / C15_once_count (no creator is evaluated twice, all schedules, NO hypothesis
+    on the input: the repaired dispatcher keeps `evaluated_creators`); C15_once_pinned + once_needs_covers and
+    pinned_filter_matches_subtask_placeholder keep the two pinned behaviours (findings F-C15b, F-C15a, fixed), C15_after_trigger (every creator evaluation is preceded by the terminal report of the
     creator's `executed` task), C15_loader_after_deps, C15_created_at_most_once / C15_report_means_finished (once-only
     half of created_obey).  Ordering half of created_obey and the target rule: full statements kept as `def`,
     evaluated by the monitor.
@@ -59,26 +59,26 @@ META = {
                   'implementation trace'),
     'design_ref': '§5 C15, §4 M1+, §6.3, §6.4',
     'level_text': ('Machine-checked: C15_once / C15_once_count (no task-creator is evaluated twice in any reachable '
-                   'state, every schedule and runner, under resolvesB and coversB; once_needs_covers shows coversB is '
-                   'necessary), C15_after_trigger (a creator is evaluated only after the terminal report of its '
-                   '`executed` task), C15_loader_after_deps, C15_created_at_most_once and C15_report_means_finished '
-                   '(every task, static or created, is handed to execution at most once and reported at most once).  '
+                   'state, every schedule and runner, every creator oracle -- full strength), C15_after_trigger (a '
+                   'creator is evaluated only after the terminal report of its `executed` task), '
+                   'C15_loader_after_deps, C15_created_at_most_once and C15_report_means_finished (every task, static '
+                   'or created, is handed to execution at most once and reported at most once).  Counterexample '
+                   'theorems about the pinned code: once_needs_covers, pinned_filter_matches_subtask_placeholder.  '
                    'The ordering / up-to-date rules for created tasks and the target rule are full-statement monitors '
                    'on every implementation trace (definitions C15_created_obey_full, C15_target_full; not theorems).  '
                    'The model is tied to doit on every run by trace acceptance.'),
     'level_note': ('Ordering half of created_obey and target: monitor-only.  Regex matching and the creators are '
                    'oracles (computed by the harness with Python re / from the generated yields).  Parallel runners '
-                   'are over-approximated (no worker accounting; that is C02).  Two open findings are recognised by '
-                   'specific signatures: subtask-then-regex-target, creates-not-yielded (= C15_once without its '
-                   'hypothesis coversB).'),
+                   'are over-approximated (no worker accounting; that is C02).  Both findings made by this check '
+                   '(F-C15a subtask-then-regex-target, F-C15b creates-not-yielded) are repaired in /repo; '
+                   'seeded/revert-F-C15a, revert-F-C15b are the regression seeds.'),
     'rule': ('random namespaces: 1-5 static tasks (deps, up-to-date, failing), 1-3 create_after creators (executed '
              'static or another creator\'s task | none; creates=[1-3 names] | none; target_regex | none; 0-3 yields as '
              'sub-tasks or explicit basenames with deps/targets/up-to-date/failing), late static tasks depending on '
              'several placeholders, selection none | tasks | sub-tasks | targets | unknown words (+ '
              '--auto-delayed-regex), --continue, runner serial | thread k=1..3 x policy | process k=2; '
              'non-trivial = a creator was evaluated; distinct = distinct rendered case + schedule'),
-    'assumptions': ['creators yield what they declare in creates (coversB; evaluated per case, counted)',
-                    'up-to-date status is produced by uptodate=[True] on a fresh DB with existing targets',
+    'assumptions': ['up-to-date status is produced by uptodate=[True] on a fresh DB with existing targets',
                     'process-mode runs are sampled'],
     'trusted': ['deterministic thread scheduler / token controller of harness/runlib.py',
                 'naming of created tasks (make_tasks below) mirrors generate_tasks string formatting',
@@ -593,10 +593,6 @@ def gen_case(rng, runner=None, knobs=None):
                 sel.append(rng.choice(targets))
             else:
                 sel.append(rng.choice(['o0_zz', 'o1_zz', 'nobody', 'o0_a']))
-        if rng.random() < 0.5:
-            # avoid the open finding (sub-task word followed by a regex target of the same creator) most of the time
-            if sig_subtask_then_regex({'case': {'static': static, 'creators': creators, 'sel': sel}}):
-                sel = [w for w in sel if ':' not in w] or sel[:1]
         auto = rng.random() < 0.15
     runner = runner or rng.choice(['serial', 'serial', 'thread', 'thread', 'thread'])
     case = {'static': static, 'creators': creators, 'order': order, 'sel': sel, 'auto': auto,
@@ -636,7 +632,7 @@ def render(case):
 # ======================================================================================================
 
 def sig_subtask_then_regex(witness):
-    """open finding subtask-then-regex-target: the command line names a sub-task of a delayed creator (a word
+    """input shape of finding F-C15a (fixed; still generated and counted): the command line names a sub-task of a delayed creator (a word
     `base:sub` that is not a task yet) and, LATER, a word that is matched as regex target by the same creator's loader
     (or any target with --auto-delayed-regex): _filter_tasks picks the sub-task placeholder up as a regex candidate and
     overwrites loader.basename with the sub-task's name."""
@@ -667,20 +663,8 @@ def sig_subtask_then_regex(witness):
     return False
 
 
-def _heads(witness):
-    return set(str(f).split(':')[0] for f in (witness.get('failed') or []))
-
-
-def sig_oddity(witness):
-    """subtask-then-regex-target, and nothing but its known consequences failed (tasks outside the selection's closure
-    executed / ordering judged against the creators' declared names / the KeyError)"""
-    allowed = {'target', 'obey', 'crash', 'utd'}
-    if uncovered_creates(witness.get('case') or {}):
-        allowed = allowed | {'once'}        # both open findings in one input
-    return sig_subtask_then_regex(witness) and _heads(witness) <= allowed
-
-
 def uncovered_creates(case):
+    """names a creator declares in `creates` but does not yield (finding F-C15b, fixed: input shape still generated)"""
     out = []
     for cr in case.get('creators', []):
         for b in (cr.get('creates') or []):
@@ -689,17 +673,7 @@ def uncovered_creates(case):
     return out
 
 
-def sig_creates_not_yielded(witness):
-    """open finding creates-not-yielded: a creator declares a name in `creates` that none of its yields defines, and the
-    failing monitor is `once` (possibly with the duplicate-target abort / re-execution that follows from it)"""
-    case = witness.get('case') or {}
-    allowed = {'once', 'obey', 'target'}
-    if sig_subtask_then_regex(witness):
-        allowed = allowed | {'crash', 'utd'}
-    return bool(uncovered_creates(case)) and 'once' in _heads(witness) and _heads(witness) <= allowed
-
-
-SIGNATURES = {'subtask-then-regex-target': sig_oddity, 'creates-not-yielded': sig_creates_not_yielded}
+SIGNATURES = {}     # F-C15a (subtask-then-regex-target) and F-C15b (creates-not-yielded) were fixed upstream (46c8565, 994517d)
 
 
 def judge_one(case, obs, ans):
@@ -737,9 +711,7 @@ def eval_cases(cases):
     return [(c, o, a) for (c, o), a in zip(out, answers)]
 
 
-def still_fails(case, want, avoid_known=True):
-    if avoid_known and (uncovered_creates(case) or sig_subtask_then_regex({'case': case})):
-        return False        # never shrink a witness INTO the input shape of an open finding
+def still_fails(case, want):
     try:
         (c, obs, ans), = eval_cases([case])
     except Exception:  # noqa
@@ -877,6 +849,10 @@ def count_case(st, case, obs, ans):
                 st.count('sel:regex-target')
             else:
                 st.count('sel:unknown-word')
+    if sig_subtask_then_regex({'case': case}):
+        st.count('shape:subtask-word-then-regex-target (F-C15a)')
+    if uncovered_creates(case):
+        st.count('shape:creates-name-not-yielded (F-C15b)')
     if case.get('auto'):
         st.count('flag:auto-delayed-regex')
     if case.get('cont'):
@@ -924,7 +900,7 @@ def eval_batch(batch):
             if failed:
                 small = case
                 want = set(f.split(':')[0] for f in failed)
-                known = any(sig({'case': case, 'failed': failed}) for sig in SIGNATURES.values())
+                known = False
                 if shrink_left > 0 and not known and len(st.violations) < 2:
                     t0 = time.time()
                     small = shrink(case, want, max_seconds=min(shrink_left, 12.0))
@@ -1053,9 +1029,6 @@ def replay(ctx, data):
     print('model accepts the trace:', ans.get('accept'), '| hypotheses:', json.dumps(ans.get('wf')))
     if failed:
         print('FAILED:', '; '.join(failed))
-        for key, sig in SIGNATURES.items():
-            if sig({'case': c, 'failed': failed}):
-                print('(matches the open finding %s)' % key)
     if div:
         print('DIVERGENCE:', div)
     return not failed and not div
